@@ -28,6 +28,7 @@ theorem tie_argvAdd (self : VcsApi) (path : Str) : argvAdd self path = addRef se
   simp only [tie_argvCall]
   simp only [Eff.tryCatch]
   rw [bind_unit]
+  try simp only [bind_unit_id]  -- `if …: raise` followed by `return` (a join) instead of `return` / `raise` in the branches
   rcases callRef self _ _ _ w s with ⟨s', r⟩
   cases r with
   | ok a => rfl
